@@ -9,5 +9,5 @@ def main (args : List String) : IO UInt32 := do
   | ["chk"] => Drivers.loop stdin () (fun _ l => ((), Drivers.Chk.step l)); return 0
   | ["num"] => Drivers.loop stdin () (fun _ l => ((), Drivers.Num.step l)); return 0
   | ["time"] => Drivers.loop stdin () (fun _ l => ((), Drivers.TimeD.step l)); return 0
-  | ["tab"] => Drivers.loop stdin () (fun _ l => ((), Drivers.Tab.step l)); return 0
+  | ["tab"] => Drivers.loop stdin (⟨[], 0, 0⟩ : Fix8Model.SortedSet.PSet) Drivers.Tab.stepAll; return 0
   | _ => IO.eprintln "usage: driver <stream>"; return 2
